@@ -403,6 +403,16 @@ def covariance_native(vc):
         K.estimate_hyperpar_bounds(y)
     p = K.n_params
     vc.ensures("labels_and_bounds_match_parameter_count", len(K.hyperpar_labels) == p and len(K.bounds) == p)
+    # entry j of the bounds constrains the parameter that label j names: every change-point location is bounded by the data
+    # range along its axis and every width by (0.5%, 50%) of that range (the documented defaults), whatever the nesting
+    ok_lab = True
+    if len(K.hyperpar_labels) == p and len(K.bounds) == p:
+        for lab, b in zip(K.hyperpar_labels, K.bounds):
+            if "ChngPnt" in lab and lab.endswith("location"):
+                ok_lab = ok_lab and b is not None and b[0] is not None and min(abs(b[0] - x[:, a_].min()) + abs(b[1] - x[:, a_].max()) for a_ in range(d)) < 1e-9 * max(1.0, float(np.abs(x).max()))
+            if "ChngPnt" in lab and lab.endswith("width"):
+                ok_lab = ok_lab and b is not None and b[0] is not None and min(abs(b[0] - 5e-3 * np.ptp(x[:, a_])) + abs(b[1] - 0.5 * np.ptp(x[:, a_])) for a_ in range(d)) < 1e-9 * max(1.0, float(np.abs(x).max()))
+    vc.ensures("change_point_bounds_belong_to_the_labelled_parameters", bool(ok_lab))
     span = float(np.ptp(x[:, 0])) + 1e-3
     theta = np.array([rng.uniform(x[:, 0].min(), x[:, 0].max()) if "location" in lab
                       else rng.uniform(0.05, 0.6) * span if "width" in lab
@@ -462,3 +472,57 @@ def mean_native(vc):
         e[t] = 1e-6
         ok = ok and np.allclose(grads[t], (M.build_mean(theta + e) - M.build_mean(theta - e)) / 2e-6, rtol=1e-6, atol=1e-6)
     vc.ensures("gradients_match_finite_differences", bool(ok))
+
+
+@contract("C10", "change_point_labels_and_bounds", native=False, replay_with="covariance_native")
+def change_point_labels_and_bounds(vc):
+    """a change-point combination's labels and bounds line up with its hyper-parameter vector: the components' entries in
+    order, then (location, width) of every change-point in order -- entry j of `bounds` / `hyperpar_labels` belongs to
+    theta[j] (2, 3, 4 kernels)"""
+    nk = vc.choice("n_kernels", [2, 3, 4])
+    d = 1
+    n = vc.int("n", lo=2)
+    x = _points(vc, "x", n, d)
+    comps = [vc.new(COV, "SquaredExponential") for _ in range(nk)]
+    loc = [(vc.real(f"loc_lo{t}"), None) for t in range(nk - 1)]
+    loc = [(a, S.add(a, vc.real(f"loc_w{t}", pos=True))) for t, (a, _) in enumerate(loc)]
+    wid = [(vc.real(f"wid_lo{t}", pos=True), None) for t in range(nk - 1)]
+    wid = [(a, S.add(a, vc.real(f"wid_w{t}", pos=True))) for t, (a, _) in enumerate(wid)]
+    CP = vc.new(COV, "ChangePoint", kernels=list(comps), axis=0, location_bounds=list(loc), width_bounds=list(wid))
+    vc.call(CP, "pass_spatial_data", x)
+    per = 1 + d
+    base = nk * per
+    p = base + 2 * (nk - 1)
+    # the component kernels' own bound estimation is replaced by distinct symbolic bounds (its contract: one pair per parameter)
+    marks = {}
+
+    def est(I, func, args, kwargs):
+        k = args[0]
+        i = [c is k for c in comps].index(True)
+        marks[i] = [(vc.real(f"b{i}_{q}_lo"), vc.real(f"b{i}_{q}_hi")) for q in range(per)]
+        I.set_attr(k, "bounds", list(marks[i]))
+        return None
+
+    vc.modular("SquaredExponential.estimate_hyperpar_bounds", est)
+    y = vc.vector("y", n)
+    vc.call(CP, "estimate_hyperpar_bounds", y)
+    B = vc.attr(CP, "bounds")
+    L = vc.attr(CP, "hyperpar_labels")
+    vc.ensures("one_label_and_one_bound_per_hyperparameter", len(B) == p and len(L) == p and vc.attr(CP, "n_params") == p)
+    if len(B) != p or len(L) != p:
+        return
+    for i in range(nk):
+        for q in range(per):
+            j = i * per + q
+            vc.ensures("component_bounds_in_place", S.And(S.cmp("==", B[j][0], marks[i][q][0]), S.cmp("==", B[j][1], marks[i][q][1])))
+            vc.ensures("component_labels_in_place", L[j].startswith(f"ChngPnt K{i}:"))
+    for t in range(nk - 1):
+        jl, jw = base + 2 * t, base + 2 * t + 1
+        vc.ensures("location_bounds_at_the_location_parameter", S.And(S.cmp("==", B[jl][0], loc[t][0]), S.cmp("==", B[jl][1], loc[t][1])))
+        vc.ensures("width_bounds_at_the_width_parameter", S.And(S.cmp("==", B[jw][0], wid[t][0]), S.cmp("==", B[jw][1], wid[t][1])))
+        vc.ensures("change_point_labels_in_place", L[jl] == f"ChngPnt{t} location" and L[jw] == f"ChngPnt{t} width")
+    # ... and these are the positions the covariance actually reads (cp_slc / cov_slc)
+    cps, cvs = vc.attr(CP, "cp_slc"), vc.attr(CP, "cov_slc")
+    vc.ensures("slices_match_the_layout", len(cps) == nk - 1 and len(cvs) == nk
+               and all(S.unwrap(s.start) == base + 2 * t and S.unwrap(s.stop) == base + 2 * t + 2 for t, s in enumerate(cps))
+               and all(S.unwrap(s.start) == i * per and S.unwrap(s.stop) == (i + 1) * per for i, s in enumerate(cvs)))
